@@ -107,6 +107,7 @@ Definition device_spec_ok (c : device_case) : bool :=
      end.
 
 Record slaves_case := {
+  sc_reach : list (string * jv);     (* host ↦ attributes the simulated device at that host answers (absent = unreachable) *)
   sc_sent : list entry;
   sc_mutated : bool;
   sc_err : option (Z * string);
@@ -114,16 +115,19 @@ Record slaves_case := {
   sc_after : list entry;
 }.
 
+Definition reach_of (t : list (string * jv)) (e : entry) : option jv :=
+  match get "host" e with JStr h => lookup h t | _ => None end.
+
 Definition slaves_model_ok (c : slaves_case) : bool :=
-  let '(s', err) := put_slave_devices (sc_sent c) {| sl_devices := []; sl_updating := true; sl_events := true |} in
+  let '(s', err) := put_slave_devices (reach_of (sc_reach c)) (sc_sent c) {| sl_devices := []; sl_updating := true; sl_events := true |} in
   option_eqb (fun a b => (fst a =? fst b) && String.eqb (snd a) (snd b)) err (sc_err c)
   && Bool.eqb (sl_updating s') (fst (sc_flags c)) && Bool.eqb (sl_events s') (snd (sc_flags c))
-  && doc_eqb (get_slave_devices s') (sc_after c).
+  && doc_eqb (map strip_slave (get_slave_devices s')) (map strip_slave (sc_after c)).
 
 Definition slaves_spec_ok (c : slaves_case) : bool :=
   fst (sc_flags c) && snd (sc_flags c)
   && match sc_err c with
-     | None => sc_mutated c || doc_eqb (sc_sent c) (sc_after c)
+     | None => sc_mutated c || doc_eqb (map strip_slave (sc_sent c)) (map strip_slave (sc_after c))
      | Some (i, _) => sc_mutated c && (0 <=? i) && (i <? Z.of_nat (List.length (sc_sent c)))
      end.
 
